@@ -1,4 +1,4 @@
-import Eru.Cluster.ProofsEffect
+import Eru.Cluster.ProofsNode
 import Eru.Props.C10
 /-
 C11 — A failed cluster operation leaves no lasting effect.
@@ -12,7 +12,7 @@ Modelled here: remove, dissociate, realloc, replace, set-node and the all-or-not
 create (its condition step).  The "parts" are the per-workload transactions (the API wrappers
 only add reads in front of them, which the models include and which cannot change the state).
 `AbsEq s s'`: same nodes, capacity, usage and the same set of workload records.
-add-node / remove-node are not modelled (see design.d/cluster.md).
+add-node and remove-node are modelled at the level of the resource manager's calls (one plugin).
 
 The full statement is false for replace (finding D13: new workload recorded, removal of the old
 one fails, nothing undoes the new one); realloc (D11), create (D12) and set-node (D25) were
@@ -63,6 +63,34 @@ theorem create_failed_cond_no_effect (a : CreateArgs R) (flt : Option Addr) (s :
       (exec (createRollback a true) flt (run (createCond a) flt s).2).st.wls = s.wls ∧
       (exec (createRollback a true) flt (run (createCond a) flt s).2).st.usage = s.usage :=
   createCond_failure_restores a flt { st := s } ⟨h, rfl, rfl⟩
+
+/-- **add-node**: whatever single step fails (engine info, plugin AddNode, store AddNode) a failed
+call leaves nodes, plugin records, capacity, usage and workloads as they were (the plugin record
+created in the condition step is removed again). -/
+theorem addNode_failed_no_effect (n : String) (c : R) (flt : Option Addr) (s : State R)
+    (hfresh : ¬ s.pnodes.contains n → s.cap n = ResAlg.zero ∧ s.usage n = ResAlg.zero) :
+    (run (addNode n c) flt s).1 = .fail → NodeAbsEq s (run (addNode n c) flt s).2.st :=
+  addNode_failed n c flt { st := s } hfresh
+
+/-- **The full statement for remove-node** (false: D16c). -/
+def PropC11RemoveNode : Prop :=
+  ∀ (n : String) (flt : Option Addr) (s : State Int),
+    (run (removeNode n) flt s).1 = .fail → NodeAbsEq s (run (removeNode n) flt s).2.st
+
+/-- **remove-node, partial**: every fault except one on the plugin's RemoveNode call. -/
+theorem removeNode_failed_no_effect_partial (n : String) (flt : Option Addr) (hG : RemoveNodeGuard flt)
+    (s : State R) : (run (removeNode n) flt s).1 = .fail → NodeAbsEq s (run (removeNode n) flt s).2.st :=
+  removeNode_failed_partial n flt hG { st := s }
+
+/-- **D16c in the model**: the store record is deleted in the condition step, the plugin call of the
+then step fails, the rollback does nothing: the call reports failure and the node is gone. -/
+theorem removeNode_failed_counterexample : ¬ PropC11RemoveNode := by
+  intro hp
+  have h := hp "n" (some ⟨"pluginRemoveNode", "n", 0⟩)
+    { nodes := ["n"], cap := fun _ => 10, usage := fun _ => 0, wls := [], pnodes := ["n"] } (by decide)
+  have := h.1.1
+  revert this
+  decide
 
 /-- **The full statement for replace** (false, see the counterexample). -/
 def PropC11Replace : Prop :=
